@@ -1888,8 +1888,20 @@ func (ip *Interp) builtin(act *activation, st *State, site ssa.CallInstruction, 
 		}
 		// otherwise the destination contents become unknown; destinations with
 		// symbolic storage are never read back precisely, so only note the event.
+		// The count is min(len(dst), len(src)): named when the two lengths are the
+		// same term or their order is decided, an unknown otherwise.
 		ip.fresh++
 		r := NewSym(64, ip.In.Atom(fmt.Sprintf("copy#%d", ip.fresh), 64, hi), true)
+		if src, ok := args[1].(*Slice); ok && dst != nil && dst.Len != nil && src.Len != nil && dst.Len.W == src.Len.W {
+			switch {
+			case dst.Len.Lin.Key() == src.Len.Lin.Key():
+				r = ip.Ops.Convert(src.Len, 64, true, true)
+			case ip.Ops.Cmp("<=", src.Len, dst.Len, true) == TriT:
+				r = ip.Ops.Convert(src.Len, 64, true, true)
+			case ip.Ops.Cmp("<=", dst.Len, src.Len, true) == TriT:
+				r = ip.Ops.Convert(dst.Len, 64, true, true)
+			}
+		}
 		ev.Result = r
 		if dst != nil && dst.Base.Obj != nil && dst.Base.Obj.Kind == ObjFresh {
 			ip.havocObj(st, dst.Base.Obj)
